@@ -445,7 +445,17 @@ fn explore_sugg(idx: usize, e: &Entry, thorough: bool, feature_on: bool, t: &mut
             let chain = candidate_chain(prog, prog.root);
             let known: Vec<String> = chain.iter().flatten().cloned().collect();
             positions.push(("#[x({N} = 1)] struct S;".into(), chain.clone(), known.clone()));
-            positions.push(("#[x({N} = 1, zz9q = 2)] struct S;".into(), chain, known));
+            positions.push(("#[x({N} = 1, zz9q = 2)] struct S;".into(), chain.clone(), known.clone()));
+            // a second unknown name that resembles a name of the outermost receiver: every
+            // unknown name is compared with every enclosing level, not only the first one
+            if let Some(outer) = chain.last().and_then(|l| l.first()) {
+                let second = format!("{outer}q");
+                if !known.contains(&second) {
+                    positions.push((format!("#[x({second} = 2, {{N}} = 1)] struct S;"), chain.clone(), known.clone()));
+                    positions.push((format!("#[x({{N}} = 1, {second} = 2)] struct S;"), chain.clone(), known.clone()));
+                }
+            }
+            let _ = &chain;
             // nested (non-flatten) struct fields anywhere in the root's flatten chain
             let mut cur = prog.root;
             loop {
@@ -510,6 +520,16 @@ fn explore_sugg(idx: usize, e: &Entry, thorough: bool, feature_on: bool, t: &mut
                         }
                         (Some(s), _) => complaints.push(format!("suggests `{s}`, expected {}", if want.is_empty() { "no suggestion".to_string() } else { format!("one of {want:?}") })),
                         (None, false) => complaints.push(format!("no suggestion, expected one of {want:?}")),
+                    }
+                } else if l.display.starts_with("Unknown field: `") && !l.display.starts_with("Unknown field: `zz9q`") {
+                    // another unknown name of the template: same candidate chain
+                    let other: String = l.display["Unknown field: `".len()..].chars().take_while(|c| *c != '`').collect();
+                    let w = if feature_on { best_suggestions(&other, chain) } else { vec![] };
+                    match (&sg, w.is_empty()) {
+                        (None, true) => {}
+                        (Some(s), false) if w.contains(s) => t.hit("second_name_suggestion_matches"),
+                        (Some(s), _) => complaints.push(format!("`{other}` suggests `{s}`, expected {}", if w.is_empty() { "no suggestion".to_string() } else { format!("one of {w:?}") })),
+                        (None, false) => complaints.push(format!("`{other}` got no suggestion, expected one of {w:?}")),
                     }
                 } else if sg.is_some() && !l.display.starts_with("Unknown field: `zz9q`") {
                     complaints.push(format!("suggestion attached to another error: `{}`", l.display));
